@@ -9,10 +9,10 @@ Definition full_statement : Prop :=
 
 (* diamond N0 -> N1, N0 -> N2, (N1, N2) -> N3 with N0 split over [1;2;3] *)
 Definition diamond : workflow :=
-  [ {| n_fields := [BSplit [1; 2; 3]%Z]; n_split := [0]; n_comb := [] |};
-    {| n_fields := [BUp 0]; n_split := []; n_comb := [] |};
-    {| n_fields := [BUp 0]; n_split := []; n_comb := [] |};
-    {| n_fields := [BUp 1; BUp 2]; n_split := []; n_comb := [] |} ].
+  [ {| n_fields := [BSplit [1; 2; 3]%Z]; n_split := [0]; n_zip := []; n_osel := []; n_comb := [] |};
+    {| n_fields := [BUp 0]; n_split := []; n_zip := []; n_osel := []; n_comb := [] |};
+    {| n_fields := [BUp 0]; n_split := []; n_zip := []; n_osel := []; n_comb := [] |};
+    {| n_fields := [BUp 1; BUp 2]; n_split := []; n_zip := []; n_osel := []; n_comb := [] |} ].
 
 Lemma diamond_wf : wf_ok diamond = true.
 Proof. vm_compute. reflexivity. Qed.
